@@ -136,5 +136,6 @@ package db
 
 //@ func db.newSchema
 //@   props C10 C05
-//@   modifies alloc mem heap box created
+//@   modifies alloc mem heap box
+//@   ghost-exit created = old(created)
 //@   ensures [result] err == nil ==> r0 != nil && fresh(r0)
